@@ -2,7 +2,12 @@
 """tools/keep_seed.py ID NAME 'detection note'  -- copy a confirmed seeded change from /tmp/wt-ID-out to
 seeded/NAME/ (patch.diff, demo, meta.json augmented with the lead's own confirmation and detection results)."""
 import json, os, shutil, sys, re
-ID, NAME, NOTE = sys.argv[1], sys.argv[2], sys.argv[3]
+ID, NAME = sys.argv[1], sys.argv[2]
+_here = os.path.dirname(os.path.abspath(__file__))
+NOTE = sys.argv[3] if len(sys.argv) > 3 else json.load(open(os.path.join(_here, "seed_notes.json")))[ID]
+_cn = {}
+if os.path.exists(os.path.join(_here, "confirm_notes.json")):
+    _cn = json.load(open(os.path.join(_here, "confirm_notes.json")))
 src = "/tmp/wt-%s-out" % ID
 dst = os.path.join(os.path.dirname(os.path.dirname(os.path.abspath(__file__))), "seeded", NAME)
 os.makedirs(dst, exist_ok=True)
@@ -29,6 +34,8 @@ meta["confirmed_by_lead"] = {
                   "verify()/vgen/zdistutils files serially in full)" % ID,
     "verdict": verdict,
 }
+if ID in _cn:
+    meta["confirmed_by_lead"]["note"] = _cn[ID]
 meta["detection"] = NOTE
 json.dump(meta, open(os.path.join(dst, "meta.json"), "w"), indent=1)
 print("kept", dst, verdict)
